@@ -74,5 +74,12 @@ def install_gzip_proxy():
 
 
 def make_plan(mode, code='ENOSPC'):
-    return {'mode': mode, 'fired': False, 'opens': 0, 'writes': 0,
-            'exc': OSError(getattr(errno, code), 'injected write fault')}
+    """code: an errno name (OSError) or the name of another exception class - serialising or
+    encoding the cache can fail in ways that are not OS errors (ValueError from json, ...)"""
+    if hasattr(errno, code):
+        exc = OSError(getattr(errno, code), 'injected write fault')
+    else:
+        exc = {'ValueError': ValueError, 'RuntimeError': RuntimeError, 'TypeError': TypeError,
+               'UnicodeEncodeError': lambda m: UnicodeEncodeError('utf-8', 'x', 0, 1, m),
+               'RecursionError': RecursionError, 'MemoryError': MemoryError}[code]('injected write fault')
+    return {'mode': mode, 'fired': False, 'opens': 0, 'writes': 0, 'exc': exc}
